@@ -308,6 +308,15 @@ Proof.
   - apply C03.Proofs.plus_toks_length.
 Qed.
 
+Lemma graph_guards_every_cycle :
+  ranks_decrease (guarded_of Gen.C02_Graph.funs) (rank_of Gen.C02_Graph.funs) Gen.C02_Graph.edges = true.
+Proof. vm_compute. reflexivity. Qed.
+
+Lemma stack_frames_bounded : forall t : ctree,
+  respects Gen.C02_Graph.LIMIT (guarded_of Gen.C02_Graph.funs) (edge_of Gen.C02_Graph.edges) 0 t = true ->
+  frames t <= S Gen.C02_Graph.LIMIT * S (K_of Gen.C02_Graph.funs).
+Proof. exact (graph_frames_bounded Gen.C02_Graph.LIMIT Gen.C02_Graph.funs Gen.C02_Graph.edges graph_guards_every_cycle). Qed.
+
 Lemma graph_example :
   1 < Gen.C02_Graph.LIMIT /\ 100 < List.length Gen.C02_Graph.funs /\ 4 = List.length (filter fguard Gen.C02_Graph.funs)
   /\ K_of Gen.C02_Graph.funs <= 64
